@@ -1,7 +1,7 @@
 //! The range table and, per builder, the typed glue that exercises `check_ref`, `check` and the
 //! training entry points.
 
-use crate::core::{apply, as_count, dbg, fit_core, guard_core, ignore, CountDist, CountRng, Ctx, Glue, Probe};
+use crate::core::{apply, as_count, dbg, fit_core, fit_core_empty, guard_core, ignore, CountDist, CountRng, Ctx, Glue, Probe};
 use crate::data;
 use crate::spec::{opt, p, p32, Dom::*, Expect};
 use crate::{no_cross, no_narrow, Builder};
@@ -71,6 +71,7 @@ macro_rules! run_fit {
     ($fname:ident, $err:ty, base: $base:expr, set: $set:expr, read: $read:expr, data: $data:expr, same: $same:expr) => {
         fn $fname(cx: &Ctx, obs: &mut Obs) {
             let ds = $data(cx);
+            let ds0 = data::empty_ds(&ds);
             let base = $base;
             let set = $set;
             let g = Glue {
@@ -84,6 +85,7 @@ macro_rules! run_fit {
                 return;
             };
             fit_core::<_, _, $err>(obs, &g, &v, &hb, "fit", &|b| b.fit(&ds), &|c| c.fit(&ds), &|| 0, &$same);
+            fit_core_empty::<_, _, $err>(obs, &g, &v, &hb, "fit_empty", &|b| b.fit(&ds0), &|c| c.fit(&ds0), &|| 0, &$same);
         }
     };
 }
@@ -164,6 +166,7 @@ mod clustering {
         type IE = IncrKMeansError<KMeans<f64, CountDist>>;
         let (rp, dp) = (Probe::new(), Probe::new());
         let ds = DatasetBase::from(data::blobs(cx.seed, 12, 2));
+        let ds0 = data::empty_ds(&ds);
         let base = |v: &[f64]| -> P { KMeans::params_with(cnt(v, 0), CountRng::new(cx.seed, &rp), CountDist(dp.clone())) };
         let x0 = data::blobs(cx.seed, 12, 2);
         let set = |b: P, v: &[f64]| {
@@ -207,6 +210,7 @@ mod clustering {
         };
         let touched = || rp.get() + dp.get();
         fit_core::<_, _, KMeansError>(obs, &g, &v, &hb, "fit", &|b| b.fit(&ds), &|c| c.fit(&ds), &touched, &dbg);
+        fit_core_empty::<_, _, KMeansError>(obs, &g, &v, &hb, "fit_empty", &|b| b.fit(&ds0), &|c| c.fit(&ds0), &touched, &dbg);
         // incremental entry point: a not-yet-converged model is a normal outcome, compare the models
         let unwrap = |r: Result<KMeans<f64, CountDist>, IE>| match r {
             Err(IncrKMeansError::NotConverged(m)) => Ok(m),
@@ -220,6 +224,17 @@ mod clustering {
             "fit_with",
             &|b| unwrap(b.fit_with(None, &ds)),
             &|c| unwrap(c.fit_with(None, &ds)),
+            &touched,
+            &dbg,
+        );
+        fit_core_empty::<_, _, IE>(
+            obs,
+            &g,
+            &v,
+            &hb,
+            "fit_with_empty",
+            &|b| unwrap(b.fit_with(None, &ds0)),
+            &|c| unwrap(c.fit_with(None, &ds0)),
             &touched,
             &dbg,
         );
@@ -237,6 +252,7 @@ mod clustering {
         type P = DbscanParams<f64, CountDist, CommonNearestNeighbour>;
         let dp = Probe::new();
         let x = data::blobs(cx.seed, 12, 2);
+        let x0 = data::empty_records(&x);
         let base = |v: &[f64]| -> P { Dbscan::params_with(cnt(v, 0), CountDist(dp.clone()), nn(0)) };
         let set = |b: P, v: &[f64]| {
             apply(
@@ -256,12 +272,14 @@ mod clustering {
             return;
         };
         fit_core(obs, &g, &v, &hb, "transform", &|b| b.transform(&x), &|c| Ok(c.transform(&x)), &|| dp.get(), &dbg);
+        fit_core_empty(obs, &g, &v, &hb, "transform_empty", &|b| b.transform(&x0), &|c| Ok(c.transform(&x0)), &|| dp.get(), &dbg);
     }
 
     fn optics(cx: &Ctx, obs: &mut Obs) {
         type P = OpticsParams<f64, CountDist, CommonNearestNeighbour>;
         let dp = Probe::new();
         let x = data::blobs(cx.seed, 12, 2);
+        let x0 = data::empty_records(&x);
         let base = |v: &[f64]| -> P { Optics::params_with(cnt(v, 0), CountDist(dp.clone()), nn(0)) };
         let set = |b: P, v: &[f64]| {
             apply(
@@ -281,12 +299,14 @@ mod clustering {
             return;
         };
         fit_core(obs, &g, &v, &hb, "transform", &|b| b.transform(x.view()), &|c| Ok(c.transform(x.view())), &|| dp.get(), &dbg);
+        fit_core_empty(obs, &g, &v, &hb, "transform_empty", &|b| b.transform(x0.view()), &|c| Ok(c.transform(x0.view())), &|| dp.get(), &dbg);
     }
 
     fn gmm(cx: &Ctx, obs: &mut Obs) {
         type P = GmmParams<f64, CountRng>;
         let rp = Probe::new();
         let ds = DatasetBase::from(data::blobs(cx.seed, 16, 2));
+        let ds0 = data::empty_ds(&ds);
         // constructed with another generator; `with_rng` (first in the canonical order) installs the real one
         let base = |v: &[f64]| -> P { GaussianMixtureModel::params_with_rng(cnt(v, 0), CountRng::new(cx.seed ^ 0x5eed, &rp)) };
         let set = |b: P, v: &[f64]| {
@@ -324,6 +344,7 @@ mod clustering {
             return;
         };
         fit_core::<_, _, GmmError>(obs, &g, &v, &hb, "fit", &|b| b.fit(&ds), &|c| c.fit(&ds), &|| rp.get(), &dbg);
+        fit_core_empty::<_, _, GmmError>(obs, &g, &v, &hb, "fit_empty", &|b| b.fit(&ds0), &|c| c.fit(&ds0), &|| rp.get(), &dbg);
     }
 }
 
@@ -594,6 +615,7 @@ mod svm {
         ($fname:ident, $t:ty, $set:expr, $other:expr, $read:expr, $data:expr) => {
             fn $fname(cx: &Ctx, obs: &mut Obs) {
                 let ds = $data(cx);
+                let ds0 = data::empty_ds(&ds);
                 let base = |_: &[f64]| Svm::<f64, $t>::params();
                 let set = $set;
                 let other = $other;
@@ -612,6 +634,7 @@ mod svm {
                     return;
                 };
                 fit_core::<_, _, SvmError>(obs, &g, &v, &hb, "fit", &|b| b.fit(&ds), &|c| c.fit(&ds), &|| 0, &eqd);
+                fit_core_empty::<_, _, SvmError>(obs, &g, &v, &hb, "fit_empty", &|b| b.fit(&ds0), &|c| c.fit(&ds0), &|| 0, &eqd);
             }
         };
     }
@@ -737,6 +760,7 @@ mod misc {
     fn gnb(cx: &Ctx, obs: &mut Obs) {
         type P = GaussianNbParams<f64, usize>;
         let ds = labelled(cx);
+        let ds0 = data::empty_ds(&ds);
         let base = |_: &[f64]| -> P { GaussianNb::<f64, usize>::params() };
         let set = |b: P, v: &[f64]| b.var_smoothing(at(v, 0));
         let g = Glue {
@@ -750,6 +774,7 @@ mod misc {
             return;
         };
         fit_core::<_, _, NaiveBayesError>(obs, &g, &v, &hb, "fit", &|b| b.fit(&ds), &|c| c.fit(&ds), &|| 0, &eqd);
+        fit_core_empty::<_, _, NaiveBayesError>(obs, &g, &v, &hb, "fit_empty", &|b| b.fit(&ds0), &|c| c.fit(&ds0), &|| 0, &eqd);
         fit_core::<_, _, NaiveBayesError>(
             obs,
             &g,
@@ -761,11 +786,23 @@ mod misc {
             &|| 0,
             &eqd,
         );
+        fit_core_empty::<_, _, NaiveBayesError>(
+            obs,
+            &g,
+            &v,
+            &hb,
+            "fit_with_empty",
+            &|b| b.fit_with(None, &ds0),
+            &|c| c.fit_with(None, &ds0),
+            &|| 0,
+            &eqd,
+        );
     }
 
     fn mnb(cx: &Ctx, obs: &mut Obs) {
         type P = MultinomialNbParams<f64, usize>;
         let ds = DatasetBase::new(data::counts(cx.seed, 12, 3), data::class_targets(12, 2));
+        let ds0 = data::empty_ds(&ds);
         let base = |_: &[f64]| -> P { MultinomialNb::<f64, usize>::params() };
         let set = |b: P, v: &[f64]| b.alpha(at(v, 0));
         let g = Glue {
@@ -779,6 +816,7 @@ mod misc {
             return;
         };
         fit_core::<_, _, NaiveBayesError>(obs, &g, &v, &hb, "fit", &|b| b.fit(&ds), &|c| c.fit(&ds), &|| 0, &eqd);
+        fit_core_empty::<_, _, NaiveBayesError>(obs, &g, &v, &hb, "fit_empty", &|b| b.fit(&ds0), &|c| c.fit(&ds0), &|| 0, &eqd);
         fit_core::<_, _, NaiveBayesError>(
             obs,
             &g,
@@ -790,12 +828,24 @@ mod misc {
             &|| 0,
             &eqd,
         );
+        fit_core_empty::<_, _, NaiveBayesError>(
+            obs,
+            &g,
+            &v,
+            &hb,
+            "fit_with_empty",
+            &|b| b.fit_with(None, &ds0),
+            &|c| c.fit_with(None, &ds0),
+            &|| 0,
+            &eqd,
+        );
     }
 
     fn ftrl(cx: &Ctx, obs: &mut Obs) {
         type P = FtrlParams<f64, CountRng>;
         let rp = Probe::new();
         let ds = DatasetBase::new(data::blobs(cx.seed, 10, 2), data::bool_targets(10));
+        let ds0 = data::empty_ds(&ds);
         let base = |_: &[f64]| -> P { Ftrl::<f64>::params_with_rng(CountRng::new(cx.seed, &rp)) };
         let set = |b: P, v: &[f64]| {
             apply(
@@ -837,6 +887,17 @@ mod misc {
             &|| rp.get(),
             &dbg,
         );
+        fit_core_empty::<_, _, FtrlError>(
+            obs,
+            &g,
+            &v,
+            &hb,
+            "fit_with_empty",
+            &|b| b.fit_with(None, &ds0),
+            &|c| c.fit_with(None, &ds0),
+            &|| rp.get(),
+            &dbg,
+        );
     }
 
     /// the model handed to Platt scaling: counts how often it is asked to predict
@@ -869,6 +930,7 @@ mod misc {
         y[0] = true;
         y[11] = false;
         let ds = DatasetBase::new(x, y);
+        let ds0 = data::empty_ds(&ds);
         let base = |_: &[f64]| -> P { Platt::<f64, Scorer>::params() };
         let set = |b: P, v: &[f64]| {
             apply(b, v, &[&|b: P, v| b.maxiter(cnt(v, 0)), &|b: P, v| b.minstep(at(v, 1)), &|b: P, v| b.sigma(at(v, 2))])
@@ -894,6 +956,17 @@ mod misc {
             &|| pp.get(),
             &eqd,
         );
+        fit_core_empty::<_, _, PlattError>(
+            obs,
+            &g,
+            &v,
+            &hb,
+            "fit_with_empty",
+            &|b| b.fit_with(Scorer(pp.clone()), &ds0),
+            &|c| c.fit_with(Scorer(pp.clone()), &ds0),
+            &|| pp.get(),
+            &eqd,
+        );
     }
 
     /// partition induced by cluster ids (ids themselves follow HashMap order)
@@ -914,6 +987,8 @@ mod misc {
         type P = HierarchicalCluster<f64>;
         let x = data::blobs(cx.seed, 12, 2);
         let kernel = || Kernel::params().method(KernelMethod::Gaussian(3.0)).transform(x.view());
+        let x0 = data::empty_records(&x);
+        let kernel0 = || Kernel::params().method(KernelMethod::Gaussian(3.0)).transform(x0.view());
         let base = |_: &[f64]| -> P { HierarchicalCluster::default() };
         let g = Glue { cx, stale: None, first_set: None, base: &base, set, clone: Some(&|b| b.clone()), touch: &|b| ignore(|| b.transform(kernel())) };
         let Some((v, hb)) = guard_core(obs, &g, Some(&eq), Some(&eq), None) else {
@@ -927,6 +1002,17 @@ mod misc {
             "transform",
             &|b| b.transform(kernel()).map(|d| partition(d.targets())),
             &|c| Ok(partition(c.transform(kernel()).targets())),
+            &|| 0,
+            &eq,
+        );
+        fit_core_empty::<_, Vec<usize>, HierarchicalError<f64>>(
+            obs,
+            &g,
+            &v,
+            &hb,
+            "transform_empty",
+            &|b| b.transform(kernel0()).map(|d| partition(d.targets())),
+            &|c| Ok(partition(c.transform(kernel0()).targets())),
             &|| 0,
             &eq,
         );
@@ -1019,6 +1105,7 @@ mod reduction {
         type P = TSneParams<f64, CountRng>;
         let rp = Probe::new();
         let x = data::blobs(cx.seed, 16, 3);
+        let x0 = data::empty_records(&x);
         let base = |_: &[f64]| -> P { TSneParams::<f64, _>::embedding_size_with_rng(2, CountRng::new(cx.seed, &rp)).max_iter(4) };
         let set = |b: P, v: &[f64]| {
             apply(b, v, &[&|b: P, v| b.perplexity(at(v, 0)), &|b: P, v| b.approx_threshold(at(v, 1)), &|b: P, _| b.max_iter(4)])
@@ -1041,6 +1128,17 @@ mod reduction {
             &|| rp.get(),
             &eq,
         );
+        fit_core_empty::<_, (usize, usize), TSneError>(
+            obs,
+            &g,
+            &v,
+            &hb,
+            "transform_empty",
+            &|b| b.transform(x0.clone()).map(|e| e.dim()),
+            &|c| c.transform(x0.clone()).map(|e| e.dim()),
+            &|| rp.get(),
+            &eq,
+        );
     }
 
     macro_rules! pls {
@@ -1051,6 +1149,7 @@ mod reduction {
                 let y2 = data::regression_targets(&x, cx.seed + 5).mapv(|t| t * t);
                 let y = ndarray::stack![ndarray::Axis(1), y1, y2];
                 let ds = DatasetBase::new(x, y);
+                let ds0 = data::empty_ds(&ds);
                 let base = |_: &[f64]| $ty::<f64>::params(2);
                 let set = |b: paste_ty!($ty), v: &[f64]| {
                     type P = paste_ty!($ty);
@@ -1071,6 +1170,7 @@ mod reduction {
                     return;
                 };
                 fit_core::<_, _, PlsError>(obs, &g, &v, &hb, "fit", &|b| b.fit(&ds), &|c| c.fit(&ds), &|| 0, &eqd);
+                fit_core_empty::<_, _, PlsError>(obs, &g, &v, &hb, "fit_empty", &|b| b.fit(&ds0), &|c| c.fit(&ds0), &|| 0, &eqd);
             }
         };
     }
@@ -1103,6 +1203,8 @@ mod reduction {
         type P = DiffusionMapParams;
         let x = data::blobs(cx.seed, 10, 2);
         let kernel = Kernel::params().method(KernelMethod::Gaussian(3.0)).transform(x.view());
+        let x0 = data::empty_records(&x);
+        let kernel0 = Kernel::params().method(KernelMethod::Gaussian(3.0)).transform(x0.view());
         let base = |_: &[f64]| -> P { DiffusionMap::<f64>::params(2) };
         let set = |b: P, v: &[f64]| apply(b, v, &[&|b: P, v| b.steps(cnt(v, 0)), &|b: P, v| b.embedding_size(cnt(v, 1))]);
         let g = Glue {
@@ -1128,6 +1230,17 @@ mod reduction {
             &|| 0,
             &eqd,
         );
+        fit_core_empty::<_, DiffusionMap<f64>, ReductionError>(
+            obs,
+            &g,
+            &v,
+            &hb,
+            "transform_empty",
+            &|b| b.transform(&kernel0),
+            &|c| Ok(c.transform(&kernel0)),
+            &|| 0,
+            &eqd,
+        );
     }
 
     macro_rules! rp {
@@ -1136,6 +1249,7 @@ mod reduction {
                 type P = linfa_reduction::random_projection::$pty<CountRng>;
                 let rp = Probe::new();
                 let ds = DatasetBase::from(data::blobs(cx.seed, 4, 80));
+                let ds0 = data::empty_ds(&ds);
                 let probe_x = data::blobs(cx.seed + 1, 3, 80);
                 // constructed with another generator; `with_rng` (builder-transforming, first in the canonical order)
                 // installs the real one and must carry the dimension / precision over
@@ -1162,6 +1276,17 @@ mod reduction {
                     "fit",
                     &|b| b.fit(&ds),
                     &|c| c.fit(&ds),
+                    &|| rp.get(),
+                    &|a, b| a.transform(&probe_x) == b.transform(&probe_x),
+                );
+                fit_core_empty::<_, $ty<f64>, ReductionError>(
+                    obs,
+                    &g,
+                    &v,
+                    &hb,
+                    "fit_empty",
+                    &|b| b.fit(&ds0),
+                    &|c| c.fit(&ds0),
                     &|| rp.get(),
                     &|a, b| a.transform(&probe_x) == b.transform(&probe_x),
                 );
@@ -1253,6 +1378,7 @@ mod text {
             "one four",
             "seven four two"
         ];
+        let texts0: ndarray::Array1<&str> = ndarray::Array1::from(Vec::<&str>::new());
         let base = |_: &[f64]| -> P { CountVectorizer::params() };
         // Recorded defect, direction 1: `.tokenizer(Tokenizer::Function(f))` keeps an earlier invalid regex
         // expression, which check_ref still compiles although it is no longer used. Recognised exactly by the
@@ -1345,7 +1471,19 @@ mod text {
             &|| 0,
             &eq,
         );
+        fit_core_empty::<_, _, PreprocessingError>(
+            obs,
+            &g,
+            &v,
+            &hb,
+            "fit_empty",
+            &|b| b.fit(&texts0).map(voc),
+            &|c| c.fit(&texts0).map(voc),
+            &|| 0,
+            &eq,
+        );
         let words = ["alpha", "beta", "gamma"];
+        let words0: [&str; 0] = [];
         fit_core::<_, _, PreprocessingError>(
             obs,
             &g,
@@ -1354,6 +1492,17 @@ mod text {
             "fit_vocabulary",
             &|b| b.fit_vocabulary(&words).map(voc),
             &|c| c.fit_vocabulary(&words).map(voc),
+            &|| 0,
+            &eq,
+        );
+        fit_core_empty::<_, _, PreprocessingError>(
+            obs,
+            &g,
+            &v,
+            &hb,
+            "fit_vocabulary_empty",
+            &|b| b.fit_vocabulary(&words0).map(voc),
+            &|c| c.fit_vocabulary(&words0).map(voc),
             &|| 0,
             &eq,
         );
